@@ -196,6 +196,13 @@ def shard(ctx, arg):
             names = ["e%d" % j for j in range(rng.randrange(1, 6))]
             anns.append(W.Annotation("Lq/A%d;" % a, [(n, gen_value(rng)) for n in names], visibility=rng.choice([0, 1, 2])))
         c.annotations = anns
+        # a class WITHOUT any member (marker interface, package-info, element-less annotation type) carries annotations too
+        anns_marker = []
+        for a in range(rng.randrange(0, 3)):
+            names = ["e%d" % j for j in range(rng.randrange(1, 6))]
+            anns_marker.append(W.Annotation("Lq/B%d;" % a, [(n, gen_value(rng)) for n in names], visibility=rng.choice([0, 1, 2])))
+        marker = m.add_class("Lp/Marker;", W.ACC_PUBLIC | W.ACC_INTERFACE | W.ACC_ABSTRACT)
+        marker.annotations = anns_marker
         pad_n = 0
         if k % 8 == 5:
             # index-valued constants (string / type / field / method / enum) beyond 0x7F and 0x7FFF: the index is an UNSIGNED little-endian
@@ -234,41 +241,43 @@ def shard(ctx, arg):
             if got != exp:
                 ctx.violation(mech_for(ev, "static"), "static-field initial value differs from the encoded value", {"field": f.name, "type": f.type, "vtype": VT_NAME[ev.vtype], "width": ev.width, "want": exp, "got": got, "dex": hexd})
             ctx.sig("static", ev.vtype, ev.width, (ev.value < 0) if isinstance(ev.value, int) and not isinstance(ev.value, bool) else None)
-        # annotations
-        try:
-            real_anns = cls._get_annotation_type_ids()
-        except Exception as e:
-            ctx.violation("annotations-raise", "reading class annotations raises", {"exc": exc_str(e), "dex": hexd})
+        # annotations (of the class with members and of the member-less class)
+        for ann_cls, ann_model, ann_tag in ((cls, anns, ""), (dx.get_class("Lp/Marker;"), anns_marker, "-memberless-class")):
+          ctx.count("annotated_classes_checked" + ann_tag)
+          try:
+            real_anns = ann_cls._get_annotation_type_ids()
+          except Exception as e:
+            ctx.violation("annotations-raise" + ann_tag, "reading class annotations raises", {"exc": exc_str(e), "dex": hexd})
             real_anns = None
-        if real_anns is not None:
-            exp_by_type = {a.type: a for a in anns}
-            if sorted(cm.get_type(r.get_type_idx()) for r in real_anns) != sorted(exp_by_type):
-                ctx.violation("annotation-set-differs", "class annotation list differs", {"got": [cm.get_type(r.get_type_idx()) for r in real_anns], "want": sorted(exp_by_type), "dex": hexd})
-            else:
-                for r in real_anns:
-                    a = exp_by_type[cm.get_type(r.get_type_idx())]
-                    ev = W.EV(W.V_ANNOTATION, a)
+          if real_anns is not None:
+              exp_by_type = {a.type: a for a in ann_model}
+              if sorted(cm.get_type(r.get_type_idx()) for r in real_anns) != sorted(exp_by_type):
+                  ctx.violation("annotation-set-differs" + ann_tag, "class annotation list differs", {"got": [cm.get_type(r.get_type_idx()) for r in real_anns], "want": sorted(exp_by_type), "dex": hexd})
+              else:
+                  for r in real_anns:
+                      a = exp_by_type[cm.get_type(r.get_type_idx())]
+                      ev = W.EV(W.V_ANNOTATION, a)
 
-                    class _Wrap:
-                        def get_value(self_inner):
-                            return r
+                      class _Wrap:
+                          def get_value(self_inner):
+                              return r
 
-                        def get_value_type(self_inner):
-                            return W.V_ANNOTATION
-                    ctx.count("annotations_compared")
-                    try:
-                        got = real_repr(cm, _Wrap(), ev)
-                    except Exception as e:
-                        ctx.violation("annotation-value-raises", "reading annotation element values raises", {"exc": exc_str(e), "dex": hexd})
-                        continue
-                    exp = expected_repr(ev)
-                    if got != exp:
-                        fb = first_bad(exp, got, ev)
-                        bad_ev = fb[0] if fb else ev
-                        ctx.violation(mech_for(bad_ev, "annotation"), "annotation element value differs from the encoded value",
-                                      {"annotation": a.type, "vtype": VT_NAME.get(bad_ev.vtype), "width": bad_ev.width, "want": fb[1] if fb else exp, "got": fb[2] if fb else got, "dex": hexd})
-                    for n, e in a.elements:
-                        ctx.sig("ann", e.vtype, e.width, len(a.elements))
+                          def get_value_type(self_inner):
+                              return W.V_ANNOTATION
+                      ctx.count("annotations_compared")
+                      try:
+                          got = real_repr(cm, _Wrap(), ev)
+                      except Exception as e:
+                          ctx.violation("annotation-value-raises", "reading annotation element values raises", {"exc": exc_str(e), "dex": hexd})
+                          continue
+                      exp = expected_repr(ev)
+                      if got != exp:
+                          fb = first_bad(exp, got, ev)
+                          bad_ev = fb[0] if fb else ev
+                          ctx.violation(mech_for(bad_ev, "annotation"), "annotation element value differs from the encoded value",
+                                        {"annotation": a.type, "vtype": VT_NAME.get(bad_ev.vtype), "width": bad_ev.width, "want": fb[1] if fb else exp, "got": fb[2] if fb else got, "dex": hexd})
+                      for n, e in a.elements:
+                          ctx.sig("ann", e.vtype, e.width, len(a.elements))
         # decompiler initialiser
         try:
             an = Analysis(dx)
@@ -280,6 +289,26 @@ def shard(ctx, arg):
             continue
         ctx.count("classes_decompiled")
         for f, ev in fields:
+            if ev.vtype in (W.V_STRING, W.V_TYPE):
+                # a String constant is printed as a Java string literal denoting it; a Class constant is NOT a string literal
+                mm = re.search(r"\b%s = (.*);$" % re.escape(f.name), src, re.M)
+                ctx.count("initialisers_compared")
+                if not mm:
+                    ctx.violation("initialiser-missing", "the decompiled class has no initialiser for a field with an initial value", {"field": f.name, "type": f.type, "source": src[:1500]})
+                    continue
+                text = mm.group(1).strip()
+                if ev.vtype == W.V_TYPE:
+                    if text.startswith('"') or ev.value.lstrip("[")[1:-1].split("/")[-1] not in text:
+                        ctx.violation("initialiser-type-constant-printed-as-something-else", "a Class constant is printed as a string literal / without its type", {"field": f.name, "value": ev.value, "printed": text[:200]})
+                else:
+                    from vf.model import javaoracle as J
+                    try:
+                        ok = J.jls_decode_string_literal(text) == J.utf16_units(ev.value)
+                    except J.JLSError:
+                        ok = False
+                    if not ok:
+                        ctx.violation("initialiser-string-constant", "a String constant is not printed as a Java string literal denoting it", {"field": f.name, "value": J.utf16_units(ev.value)[:40], "printed": text[:200]})
+                continue
             if ev.vtype not in (W.V_BYTE, W.V_SHORT, W.V_INT, W.V_LONG, W.V_CHAR, W.V_BOOLEAN):
                 continue
             mm = re.search(r"\b%s = ([^;\n]*);" % re.escape(f.name), src)
